@@ -469,6 +469,8 @@ func runC07(c *Ctx) {
 	r5 := c.Rule("R5", "a Phase2Commit failure can only be undone if the priority log holds handle PRE-images: it is written before the in-place flip (shared with C08.R2)", 5)
 	r4 := c.Rule("R4", "transaction logs are removed on every terminal path: rollback -> removeLogs, cleanup -> removeLogs, log replay -> TransactionLog.Remove", 3)
 	commitUndoRules(c, r1, r2, r3, r5, r4)
+	r7 := c.Rule("R7", "a first root's handle is registered only after its blob was written: the root id is published in StoreInfo.RootNodeID, so a registered handle without a blob is reachable data that does not load, and (the partial step not being undone, R2) it blocks every later creator of that root for good, whereas an orphan blob is overwritten by the retry", 1)
+	rootBlobBeforeHandleRule(c, r7)
 	r6 := c.Rule("R6", "undo functions that cannot tell this transaction's state from a competitor's run only in a state that implies the step succeeded for this transaction (shared with C37.R4)", 6)
 	foreignBlindUndoRule(c, r6)
 }
@@ -741,4 +743,33 @@ func dominatedByCall(g *Graph, n *GNode, key string) bool {
 	// reachable only via some edge of those conds: removing the cond nodes entirely disconnects n
 	r := g.Reach([]int{g.Entry}, nodeSet(conds), nil)
 	return !r.Seen[n.ID]
+}
+
+// rootBlobBeforeHandleRule (C07.R7, shared by C10.R2).
+func rootBlobBeforeHandleRule(c *Ctx, r7 string) {
+	w := c.W
+	f := w.Fn(kNRBcommitNewRoot)
+	g := w.G(f)
+	c.Analysed(f)
+	offs := g.MustPrecede(calls(kBlobAdd), calls(kRegAdd))
+	ok := len(g.callNodes(kBlobAdd)) == 1 && len(g.callNodes(kRegAdd)) == 1
+	if ok {
+		// and registry.Add is unreachable from the failure edge of the blob write
+		nc := g.callNodes(kBlobAdd)[0]
+		if fail, _, tested := g.ErrBranches(nc.n, nc.cs); tested {
+			r := g.Reach(fail, nil, nil)
+			for _, x := range g.Find(calls(kRegAdd)) {
+				if r.Seen[x.ID] {
+					ok = false
+				}
+			}
+		} else {
+			ok = false
+		}
+	}
+	if !ok && len(offs) == 0 {
+		offs = []Offence{{g.Nodes[g.Entry], nil}}
+	}
+	c.Offences(g, offs, r7, "commitNewRootNodes: the root blob is written before the root handle is registered", f.Decl.Pos(), "blobStore.Add precedes registry.Add, which is unreachable when the blob write failed",
+		"the root handle can be registered before (or without) its blob: a fault at the blob write leaves a registered root with no blob - readers resolve StoreInfo.RootNodeID to a node that does not load, and no later transaction can ever create that root")
 }
